@@ -218,7 +218,7 @@ Lemma t2_set_locator d perm temp u idx :
   tracked2 T d0 d perm temp -> d_nuid d0 <= u -> tracked2 T d0 (set_locator d u T idx) perm temp.
 Proof.
   intros T2 Hu. pose proof T2 as [ex [Hc [Hx [Hdis [Hl [Hn Hr]]]]]]. unfold set_locator.
-  destruct (negb (uid_valid d u)); [exact T2|].
+  destruct (negb (set_locator_ok d u)); [exact T2|].
   assert (Hm : forall t, t <> T -> getloc (map (erase_first u) (d_locs d)) t = getloc (d_locs d0) t).
   { intros t Ht. rewrite getloc_map by reflexivity. rewrite erase_first_notin by (apply (t2_fresh_notin _ _ _ _ _ T2 Hu Ht)).
     apply Hl; exact Ht. }
